@@ -146,7 +146,7 @@ pub fn run(r: &mut Runner) -> &'static str {
         .into();
     r.assumptions.push("conditioned on acceptance by the implementation (C01 owns acceptance)".into());
     let n = r.n(250_000, 6_000_000);
-    r.random("c15.views", n, 200, &gen_case, &judge);
+    r.random("c15.views", n, 200, &gen_case, &|x: &Vec<u8>, st: &mut Stats| crate::engine::in_arena(x, |v| judge(v, st)));
     // the same check over chains of related inputs judged back to back on one thread (history independence)
     let n = r.n(30000, 800000);
     r.random("c15.chains", n, 260, &|t| crate::gen::gen_chain(t, &gen_case), &|c: &crate::engine::Chain, st: &mut Stats| {
